@@ -37,4 +37,4 @@ def run(ctx):
         stages = [_stage("asan", 16), _stage("prod", 320)]
     else:
         stages = [_stage("asan", 1)]
-    return vflib.std_run(ctx, stages, "differential", RULE, ASSUME, min_nontrivial=2000)
+    return vflib.std_run(ctx, stages, "exploration", RULE, ASSUME, min_nontrivial=2000)
